@@ -37,7 +37,13 @@ ASSUMPTIONS = [
 ]
 RULE = ('boundary streams (every CompactSize form change for input/output/witness counts and script/item lengths, all '
         '256 one-byte scripts and witness items, field extremes), structured stream of standard input kinds and random '
-        'non-standard scripts built bottom-up, API-built transactions, mutated/malformed stream, blocks of 1..50 '
+        'non-standard scripts built bottom-up, API-built transactions, the same fields handed to the API in every '
+        'argument form (witness stack as list / tuple / hex strings / ONE bytes string in raw-transaction form, prev_txid '
+        'and scripts as bytes / hex, numbers as int / bytes, add_input+add_output / Input+Output objects) with witness '
+        'items on both sides of every CompactSize prefix size in every stack position; segwit coinbases with every '
+        'shape of witness reserved value (truncated pushes, pushdata prefixes, complete pushes, opcode- / text- / '
+        'program-looking bytes, other stack sizes) alone, in blocks and in reader sessions; '
+        'mutated/malformed stream, blocks of 1..50 '
         'transactions, exhaustive exponent x boundary mantissa (sign bit clear and set) for target; shaped-data stream: '
         'every standard script position (P2PKH / P2PK / P2SH-multisig scriptSig, P2WPKH / P2SH-P2WPKH / P2WSH witness, '
         'P2PK / bare multisig / OP_RETURN outputs, redeem scripts) filled with key-shaped pushes that are no curve points '
@@ -508,10 +514,40 @@ def rnd_tx(rng, kind):
     return (e32(rng), ins, outs, e32(rng), sw)
 
 
-def coinbase_tx(rng, segwit):
+def reserved_values(rng):
+    """32-byte witness reserved values of a segwit coinbase (BIP141 leaves the value free; consensus never reads it as a
+    script): shapes the script layer of the library could mistake for something — truncated pushes, pushdata prefixes,
+    complete pushes, opcode-looking bytes, text, hash-like bytes"""
+    k = rng.randrange(1, 0x4c)
+    out = [b'\x00' * 32, b'\xaa' * 32, b'\xff' * 32, bytes(range(32)), bytes(range(0x50, 0x70)), rnd(rng, 32),
+           b'\x20' + rnd(rng, 31),                                  # a 32-byte push with 31 bytes left
+           bytes([k]) + rnd(rng, 31),                               # any direct push: complete or truncated
+           b'\x4b' + b'\x01' * 31, b'\x21' + b'\x02' + rnd(rng, 30),  # 'key' push cut short
+           plain_script(rng, 31) + bytes([rng.randrange(1, 0x4c)]),  # a push opcode with nothing behind it
+           b'\x51' * 30 + b'\x02\x07',                             # a push with one byte missing at the very end
+           b'\x4c\xff' + rnd(rng, 30), b'\x4c\x1e' + rnd(rng, 30), b'\x51' * 31 + b'\x4c',    # OP_PUSHDATA1
+           b'\x4d\xff\xff' + rnd(rng, 29), b'\x4d\x1d\x00' + rnd(rng, 29), b'\x51' * 30 + b'\x4d\x01',   # OP_PUSHDATA2
+           b'\x4e\xff\xff\xff\x7f' + rnd(rng, 27), b'\x4e\x1b\x00\x00\x00' + rnd(rng, 27), b'\x51' * 29 + b'\x4e\x00\x00',
+           b'\x1f' + rnd(rng, 31),                                  # exactly one complete push
+           b'\x00\x14' + rnd(rng, 20) + b'\x51' * 10, b'\x00\x1e' + rnd(rng, 30),       # witness-program-like
+           b'\x6a\x1e' + rnd(rng, 30), b'\x76\xa9\x14' + rnd(rng, 20) + b'\x88\xac' + b'\x61' * 7,
+           b'\xc0' + rnd(rng, 31), b'\x50' + rnd(rng, 31), b'\x30\x1e\x02\x0c' + rnd(rng, 12) + b'\x02\x0c' + rnd(rng, 12) + b'\x01\x01',
+           b'0123456789abcdefABCDEF0123456789', b'witness reserved value, as text.']
+    assert all(len(x) == 32 for x in out)
+    return out
+
+
+def odd_reserved(rng):
+    """coinbase witness stacks outside BIP141's single 32-byte item (the wire format does not care)"""
+    return [[b''], [rnd(rng, 1).replace(b'\x00', b'\x51')], [rnd(rng, 31)], [b'\x02' + rnd(rng, 31)], [rnd(rng, 64)],
+            [b'\x20' + rnd(rng, 31), b'\x00' * 32], [b'\x00' * 32, b'\x20' + rnd(rng, 31)], [b'\x4c' * 32, b'', b'\x4d'],
+            [rnd(rng, 300), b'\x4b' + rnd(rng, 31)], [b'\x05' + rnd(rng, 3)], [b'\x51'] * 253]
+
+
+def coinbase_tx(rng, segwit, reserved=None):
     h = rng.randrange(1, 1 << 24)
     s = push(h.to_bytes(3, 'little')) + rnd(rng, rng.randrange(0, 40))
-    w = [b'\x00' * 32] if segwit else []
+    w = ([b'\x00' * 32] if reserved is None else list(reserved)) if segwit else []
     outs = [(rng.getrandbits(33), std_out(rng))]
     if segwit:
         outs.append((0, b'\x6a\x24\xaa\x21\xa9\xed' + rnd(rng, 32)))
@@ -607,6 +643,16 @@ def gen_cases(rng, tier):
     for sw in (False, True):
         for _ in range(8 if big else 3):
             tx_case('tx_coinbase', 'std', coinbase_tx(rng, sw), cs_)
+    # ---- segwit coinbase: every shape of the witness reserved value (strict mode may refuse what its script layer
+    # cannot read: tag non; the block readers and strict=False must give the bytes back)
+    for rv in reserved_values(rng):
+        tx_case('tx_coinbase_rv', 'std' if rv == b'\x00' * 32 else 'non', coinbase_tx(rng, True, [rv]), cs_)
+    for st in odd_reserved(rng):
+        tx_case('tx_coinbase_rv', 'non', coinbase_tx(rng, True, st), cs_)
+    for _ in range(60 if big else 8):
+        b0 = rng.choice([rng.randrange(1, 0x4f), rng.randrange(256)])
+        rv = bytes([b0]) + rnd(rng, 31)
+        tx_case('tx_coinbase_rv', 'non', coinbase_tx(rng, True, [rv[::-1] if rng.random() < 0.3 else rv]), cs_)
     # segwit flag without any witness (outside the protocol domain; the library accepts and re-writes it)
     cs_.append(Case('tx_superfluous', 'tx non ' + o_ser((1, [(P, 0, b'', 5, [])], [(1, b'\x51')], 0, True)).hex()))
     # ---- structured stream
@@ -642,6 +688,8 @@ def gen_cases(rng, tier):
     cs_.append(Case('api', 'api ' + tok_tx(simple(outs=[(1, b'\x00')]))))
     cs_.append(Case('api', 'api ' + tok_tx(simple(outs=[(1 << 64, b'\x51')]))))
     cs_.append(Case('api', 'api ' + tok_tx(simple(outs=[(1, b'ab')]))))
+    # ---- API-built transactions, the arguments in their alternative forms
+    gen_api_forms(rng, big, cs_, big and not widen)
     if not widen:
         target_cases(cs_)
     # ---- pushed data imitating keys / signatures, in every position of the standard forms
@@ -649,8 +697,10 @@ def gen_cases(rng, tier):
     # ---- blocks
     shp_pool = [t for _, t in shaped_txs(rng, [], bad_keys(rng), True)]
 
-    def block(nt, hdr=None, kinds=('std', 'plain')):
-        txs = [coinbase_tx(rng, rng.random() < 0.5)]
+    rvs = reserved_values(rng)
+
+    def block(nt, hdr=None, kinds=('std', 'plain'), cb=None):
+        txs = [cb or coinbase_tx(rng, rng.random() < 0.5, [rng.choice(rvs)] if rng.random() < 0.7 else None)]
         for _ in range(nt - 1):
             kd = rng.choice(kinds)
             txs.append(rng.choice(shp_pool) if kd == 'shp' else rnd_tx(rng, kd))
@@ -674,6 +724,12 @@ def gen_cases(rng, tier):
     cs_.append(block(3, hdr=(1, 0x1dffffff, 2), kinds=('plain',)))
     for k in range(20 if big else 3):
         cs_.append(block(rng.randrange(2, 9), kinds=('shp', 'plain')))   # key-shaped data that is no curve point
+    # every shape of the coinbase's witness reserved value, through both block readers
+    for j, rv in enumerate(reserved_values(rng)):
+        if big or j % 2 == 0 or 6 <= j <= 11:
+            cs_.append(block(rng.randrange(1, 4), kinds=('plain',), cb=coinbase_tx(rng, True, [rv])))
+    for st in odd_reserved(rng)[::(1 if big else 3)]:
+        cs_.append(block(2, kinds=('plain',), cb=coinbase_tx(rng, True, st)))
     # ---- sequences of reader calls on one Block object
     gen_sessions(rng, big, cs_)
     return cs_
@@ -1103,7 +1159,7 @@ def sess_block(rng, n):
     while True:
         txs = []
         while not txs or tx_classes(txs[0]):
-            txs = [coinbase_tx(rng, rng.random() < 0.3)]
+            txs = [coinbase_tx(rng, rng.random() < 0.45, [rng.choice(reserved_values(rng))] if rng.random() < 0.75 else None)]
         txs += [small_tx(rng) for _ in range(n - 1)]
         for j in range(1, n):
             # transactions with random-byte scripts outside every recorded class (strict mode refuses most of them: the
@@ -1170,6 +1226,79 @@ def gen_sessions(rng, big, cs_):
         if rng.random() < 0.7:
             ops += ['T0', 'S']
         emit(raw, n, rng.choice(ENTRIES), ptx, max(lim, 0), ops)
+
+
+# ---------------------------------------------------------------- API arguments in their alternative forms
+# request: apif <form> <fields>     fields as for `api`; form = four letters
+#   witnesses:    l list of bytes | t tuple of bytes | h list of hex strings | b ONE bytes string (count + length-prefixed
+#                 items, as in a raw transaction)
+#   prev_txid:    b bytes | h hex string
+#   scripts:      b bytes | h hex strings (unlocking_script, lock_script)
+#   construction: a Transaction.add_input / add_output | o Input(..) / Output(..) objects given to Transaction(..)
+#   numbers:      i output_n and sequence as int | b output_n as 4 bytes big-endian, sequence as 4 bytes little-endian
+# The fields are the same whatever the form: the oracle (and the model, which has no notion of argument form) expect the
+# bytes of the `api` request.
+API_FORMS = [w + p + s + c + n for w in 'ltbh' for p in 'bh' for s in 'bh' for c in 'ao' for n in 'ib']
+WIT_SIZES = [0, 1, 2, 3, 20, 32, 34, 64, 75, 76, 100, 252, 253, 254, 255, 256, 300, 520, 1000]
+
+
+def wit_item(rng, n):
+    s = plain_script(rng, n)
+    return s if not sigkey_shaped(s) else s[:-1]
+
+
+def gen_api_forms(rng, big, cs_, giant):
+    P = bytes(range(1, 33))
+
+    def emit(form, t):
+        cs_.append(Case('api_form', 'apif %s %s' % (form, tok_tx(t))))
+
+    def stack(sizes):
+        return [wit_item(rng, n) for n in sizes]
+    # the item with a 1 / 3 / 5-byte length prefix in every position of a stack, every witness form
+    shapes = [[71, 253, 34], [64, 300, 32, 1], [252, 1, 1], [253, 1, 1], [1, 253, 1], [1, 1, 253], [1, 0, 252, 1], [0, 1, 0],
+              [0, 253, 0, 254, 0], [255, 256, 257, 1], [65535, 1, 2], [1, 520, 0, 1]] + ([[65536, 1, 2], [1, 70000, 3, 65536, 1]] if giant else [])
+    for j, sizes in enumerate(shapes):
+        for w in 'ltbh':
+            emit(w + 'bb' + 'ao'[(j + 'ltbh'.index(w)) % 2] + 'ib'[j % 2], simple(ins=[(P, 3, b'', 0xfffffffd, stack(sizes))], v=2, lt=17))
+    # one five-byte prefix in the quick tier (the extracted SHA-256 needs seconds for it)
+    if not giant:
+        emit('bbbai', simple(ins=[(P, 3, b'', 0xfffffffd, stack([65536, 1, 2]))], v=2, lt=17))
+    # item COUNTS with a three-byte prefix, then a longer item
+    for w in 'lb':
+        emit(w + 'bbai', simple(ins=[(P, 0, b'', 0xffffffff, [b'\x51'] * 253 + stack([3, 253, 1]))]))
+        emit(w + 'hhob', simple(ins=[(P, 0, b'', 0xffffffff, [b''] * 252 + stack([253, 2]))]))
+    # every combination of forms on a transaction with several inputs and outputs
+    for form in API_FORMS:
+        ins = [(rnd_prev(rng), rng.choice([0, 1, 7, 0xffffffff]), b'', e32(rng), stack([rng.choice(WIT_SIZES) for _ in range(rng.choice([1, 3, 4, 5]))])),
+               (rnd_prev(rng), 1, plain_script(rng, rng.choice([0, 1, 5, 76, 253])), e32(rng), []),
+               (rnd_prev(rng), 2, b'', e32(rng), stack([rng.choice([253, 300, 1000]), 1, rng.choice(WIT_SIZES)]))]
+        outs = [(rng.getrandbits(40), plain_script(rng, rng.choice([1, 2, 25, 76, 253, 300]))) for _ in range(rng.choice([1, 2, 3]))]
+        emit(form, (rng.choice([1, 2, e32(rng)]), ins, outs, e32(rng), True))
+    # random stacks in random forms
+    for k in range(1500 if big else 120):
+        ins = []
+        for _ in range(rng.choice([1, 1, 2, 3])):
+            r = rng.random()
+            if r < 0.75:
+                st = stack([rng.choice(WIT_SIZES) for _ in range(rng.choice([1, 3, 3, 4, 5, 7]))])
+                ins.append((rnd_prev(rng), rng.choice([0, 1, rng.getrandbits(32)]), b'', e32(rng), st))
+            else:
+                ins.append((rnd_prev(rng), rng.choice([0, 1, rng.getrandbits(32)]), plain_script(rng, rng.choice([0, 1, 2, 25, 107, 253])),
+                            e32(rng), []))
+        outs = [(rng.choice([0, 1, 546, rng.getrandbits(40)]), plain_script(rng, rng.choice([1, 2, 22, 25, 34, 76, 253]))) for _ in range(rng.choice([1, 2]))]
+        sw = any(i[4] for i in ins)
+        form = rng.choice('bbbblth') + rng.choice('bh') + rng.choice('bh') + rng.choice('ao') + rng.choice('iib')
+        emit(form, (rng.choice([1, 2, e32(rng)]), ins, outs, e32(rng), sw))
+    # the same with standard kinds (sorted out into the recorded classes where the constructor re-assembles)
+    for k in range(200 if big else 20):
+        emit(rng.choice(API_FORMS), api_adjust(rnd_tx(rng, 'std'), 'std'))
+
+
+def api_adjust(t, kd):
+    # add_output refuses a non-zero OP_RETURN output; Input() reads a two-item stack as signature + key
+    return (t[0], [(i[0], i[1], i[2], i[3], i[4] + [b'\x51'] if (kd == 'plain' and len(i[4]) == 2) else i[4]) for i in t[1]],
+            [((0 if s[:1] == b'\x6a' else v), s) for v, s in t[2]], t[3], t[4])
 
 
 # ---------------------------------------------------------------- verdicts
@@ -1254,22 +1383,25 @@ def prop_check(c, out):
         return check_parsed(s, raw, t, 'Transaction.parse(raw)')
     if tk[0] == 'bsess':
         return check_session(c, out)
-    if tk[0] == 'api':
+    if tk[0] in ('api', 'apif'):
         if out.startswith('ERR'):
+            if c.kind == 'api_form' and not case_classes(c):
+                return 'the API refuses well-formed fields given in the argument form %s (%s)' % (tk[1], out)
             return None                       # the API declined to build it: nothing was serialized
         r, fields = out.split(' ')
         t = o_parse(unhx(r))
         if t is None:
             return 'independent parser rejects the bytes of an API-built transaction'
-        if tok_tx(t) != fields:
+        # (witnesses given as ONE bytes string are read as a raw transaction's are: the object holds an empty item as b'\0')
+        if tok_tx(t) != fields and not (tk[0] == 'apif' and tk[1][0] == 'b' and tok_tx(t, held=True) == fields):
             return 'independent parser reads fields that differ from the object that produced the bytes'
         # ... and from the fields that were GIVEN to the API (the object's own report could be wrong the same way as
         # its bytes).  The only documented normalisation: version 0 means 1, and version 1 becomes 2 as soon as an
         # input carries a relative-locktime sequence (BIP68).
-        want = tx_of_tok(tk[1])
+        want = tx_of_tok(tk[-1])
         v = 1 if want[0] == 0 else want[0]
-        if v == 1 and any(0 < i[3] < 0x80000000 for i in want[1]):
-            v = 2
+        if v == 1 and any(0 < i[3] < 0x80000000 for i in want[1]) and not (tk[0] == 'apif' and tk[1][3] == 'o'):
+            v = 2                             # (add_input does that; Input objects handed to Transaction() are taken as they are)
         if tok_tx(t) != tok_tx((v,) + tuple(want[1:])):
             return 'independent parser reads fields that differ from the fields given to the API'
         return None
@@ -1288,8 +1420,8 @@ def case_classes(c):
         if tk[0] == 'tx':
             t = o_parse(unhx(tk[2]))
             return tx_classes(t) if t else set()
-        if tk[0] == 'api':
-            t = tx_of_tok(tk[1])
+        if tk[0] in ('api', 'apif'):
+            t = tx_of_tok(tk[-1])
             cl = tx_classes(t)
             if any(len(i[4]) == 2 for i in t[1]):
                 cl.add('script_layer_rebuild')     # Input() reads a two-item stack as signature + key
@@ -1343,10 +1475,23 @@ def same(c, io, mo):
         if ok_l and ok_s:
             return True
         return blind and prop_check(c, io) is not None
-    if tk[0] == 'api':
+    if tk[0] in ('api', 'apif'):
         m = mo.split(' P:')[0]
         if _norm(io) == m:
             return True
+        if tk[0] == 'apif' and tk[1][3] == 'o' and not io.startswith('ERR'):
+            # the model's api_build is add_input / add_output (which turns version 1 into 2 at the first relative-locktime
+            # sequence); Input objects handed to Transaction() keep the version given: there the independent oracle alone
+            # judges (it expects the given version)
+            want = tx_of_tok(tk[-1])
+            if want[0] in (0, 1) and any(0 < i[3] < 0x80000000 for i in want[1]):
+                return prop_check(c, io) is None
+        if tk[0] == 'apif' and tk[1][0] == 'b' and not io.startswith('ERR') and m != 'ERR':
+            # witnesses given as ONE bytes string: the object holds an empty item as b'\0' (as a parsed transaction does);
+            # the bytes must be the model's
+            (ri, fi), (rm, fm) = io.split(' '), m.split(' ')
+            if ri == rm and fi == tok_tx(tx_of_tok(fm), held=True):
+                return True
         if io.startswith('ERR') and (blind or c.kind == 'api_non') and c.kind != 'api_shp':
             return True                       # constructor refuses what its script layer does not understand
         return blind                          # the byte-level model does not predict what Input() re-assembles
